@@ -334,8 +334,23 @@ def verify_function(contract, timeout_ms=None, want_models=True):
     # loop ordinals in source order within the function (nested defs included: they are inlined)
     loops = sorted([(n.lineno, n.col_offset) for n in ast.walk(fnode) if isinstance(n, (ast.For, ast.While))])
     contract.loop_ordinals = {pos: i for i, pos in enumerate(loops)}
-    for o in contract.loops:
-        if o >= len(loops):
+    for o in list(contract.loops):
+        if isinstance(o, tuple):
+            # loop of an inlined callee: key (qualname in the same module | 'relpath::qualname', ordinal)
+            qn, idx = o
+            try:
+                cmod = load_module(qn.split('::')[0]) if '::' in qn else module
+                cnode, _ = cmod.find(qn.split('::')[-1])
+            except (KeyError, OSError, SyntaxError) as e:
+                res.status, res.reason = 'out_of_reach', 'binding of inlined callee failed: %s' % e
+                return res
+            cl = sorted([(n.lineno, n.col_offset) for n in ast.walk(cnode) if isinstance(n, (ast.For, ast.While))])
+            if idx >= len(cl):
+                res.status, res.reason = 'out_of_reach', 'loop annotation %r has no loop' % (o,)
+                return res
+            contract.loop_ordinals[cl[idx]] = o
+            contract.loops[o].ordinal = '%s#%d' % (qn.split('.')[-1], idx)
+        elif o >= len(loops):
             res.status, res.reason = 'out_of_reach', 'loop annotation %d has no loop (function has %d loops)' % (o, len(loops))
             return res
     vm = VM(contract)
@@ -455,6 +470,12 @@ def discharge(ob, axioms, timeout_ms, contract, want_models=True):
         m = length_refute(ob.pc, ob.goal)
         if m is not None:
             ob.verdict, ob.model, ob.backend = 'refuted', m, 'z3-length'
+            ob.time = time.time() - t0
+            return
+        from .lenabs import bounded_seq_refute
+        m = bounded_seq_refute(ob.pc, ob.goal, axioms)
+        if m is not None:
+            ob.verdict, ob.model, ob.backend = 'refuted', m, 'z3-seq-bounded'
             ob.time = time.time() - t0
             return
     if r == z3.unknown:
